@@ -183,9 +183,61 @@ def run_cbmc(bdir, gb, h, tier, log, extra=None):
     to = h.get('timeout_thorough', 1800) if tier == 'thorough' else h.get('timeout', 300)
     cmd = ['cbmc', gb, '--json-ui', '--trace', '--object-bits', str(h.get('object_bits', 10))] + flags
     t0 = time.time()
-    rc, out = sh(cmd, bdir, to, log)
+    if h.get('shards'):
+        rc, out = run_cbmc_sharded(bdir, gb, h, cmd, to, log)
+    else:
+        rc, out = sh(cmd, bdir, to, log)
     dt = time.time() - t0
     return rc, out, dt, cmd
+
+
+def run_cbmc_sharded(bdir, gb, h, cmd, to, log):
+    """Same verification problem, split by obligation: the property list is obtained with
+    --show-properties and dealt round-robin to N cbmc processes run in parallel (each one checks
+    only its own obligations with --property); the result lists are concatenated."""
+    import concurrent.futures as cf
+    rc, out = sh([c for c in cmd if c != '--trace'] + ['--show-properties'], bdir, 120, log + '.props')
+    try:
+        data = json.loads(out[out.index('['):out.rindex(']') + 1])
+    except ValueError:
+        return rc, out
+    names = []
+    for item in data:
+        for pr in item.get('properties', []):
+            names.append(pr['name'])
+    n = int(h['shards'])
+    shards = [names[k::n] for k in range(n)]
+    shards = [x for x in shards if x]
+
+    def one(k):
+        c = list(cmd)
+        for nm in shards[k]:
+            c += ['--property', nm]
+        return sh(c, bdir, to, '%s.shard%d' % (log, k))
+    with cf.ThreadPoolExecutor(max_workers=len(shards)) as ex:
+        outs = list(ex.map(one, range(len(shards))))
+    merged = []
+    msgs = []
+    status = 'success'
+    for rc_k, out_k in outs:
+        if rc_k == -999:
+            return -999, out_k
+        res, m, st = parse_cbmc_json(out_k)
+        if res is None:
+            return rc_k, out_k
+        merged += res
+        msgs.append(m)
+        if st != 'success':
+            status = st if st else 'error'
+    doc = [{'program': 'CBMC (sharded x%d)' % len(shards)}]
+    for m in msgs[:1]:
+        doc.append({'messageText': m, 'messageType': 'STATUS-MESSAGE'})
+    doc.append({'result': merged})
+    doc.append({'cProverStatus': status})
+    text = json.dumps(doc)
+    with open(log, 'a') as f:
+        f.write('$ cbmc (sharded)\n' + text[:200000] + '\n[rc=0, sharded]\n')
+    return 0, text
 
 
 def run_harness(u, h, bdir, tier, unit_info):
